@@ -305,13 +305,19 @@ def run_proc(cmd, timeout, logpath, mem_gb=12):
 
 
 import queue
+import threading
 
 SLOTS = queue.Queue()
+DEADLINE = [None]  # absolute time after which no solver query may still run (quick tier)
 
 
 def run_harness(h, logdir, timeout_scale=1.0):
     logpath = os.path.join(logdir, h["name"] + ".log")
     timeout = float(h["to"]) * timeout_scale
+    if DEADLINE[0] is not None:
+        timeout = min(timeout, DEADLINE[0] - time.time())
+        if timeout < 10:
+            return None
     slot = SLOTS.get()
     try:
         rc, timed_out, wall = run_proc(kani_cmd(h, slot=slot), timeout, logpath, mem_gb=int(h.get("mem", "12")))
@@ -327,7 +333,7 @@ def run_harness(h, logdir, timeout_scale=1.0):
     r["rc"] = rc
     if timed_out:
         r["outcome"] = "inconclusive"
-        r["why"] = "timeout %ds" % timeout
+        r["why"] = "timeout %ds%s" % (timeout, " (quick-tier wall budget)" if DEADLINE[0] is not None and timeout < float(h["to"]) * timeout_scale else "")
     elif "error: could not compile" in text or "Failed to execute cargo" in text:
         r["outcome"] = "build_error"
         r["why"] = "build failed (see %s)" % logpath
@@ -398,7 +404,8 @@ def get_counterexamples(h, logdir):
     slot = SLOTS.get()
     try:
         cmd = kani_cmd(h, ["-Z", "concrete-playback", "--concrete-playback=print"], slot=slot)
-        rc, timed_out, wall = run_proc(cmd, float(h["to"]) * 2, logpath)
+        cex_to = float(h["to"]) * 2 if DEADLINE[0] is None else max(150.0, 3 * h.get("_failed_after", 60.0))
+        rc, timed_out, wall = run_proc(cmd, cex_to, logpath)
         text = open(logpath, errors="replace").read()
         if "kani_middle::analysis::print_stats" in text:
             cmd = kani_cmd(h, ["-Z", "concrete-playback", "--concrete-playback=print"], slot=slot, verbose=False)
@@ -627,7 +634,8 @@ def repo_state():
 
 
 TIMINGS = os.path.join(ROOT, "timings.json")
-QUICK_LIMIT_S = 480.0
+QUICK_LIMIT_S = 330.0
+QUICK_BUDGET_S = 640.0  # wall budget of a quick run from its start (build included): the run must end well within 900 s
 
 
 def load_timings():
@@ -741,17 +749,33 @@ def main():
             return 2
         log("[build %s] %.0fs" % (cfg, time.time() - tb))
 
-    # schedule: twins and cheap ones first is not needed; longest first gives the best packing
-    hs.sort(key=lambda h: -float(h["to"]))
+    # schedule: longest (by last measurement, else by timeout) first gives the best packing
+    tm_all = load_timings()
+    hs.sort(key=lambda h: -(tm_all.get(h["name"], {}).get("s") or float(h["to"]) / 4))
     results = {}
-    budget = a.budget
+    budget = a.budget if a.budget else (QUICK_BUDGET_S if tier == "quick" else None)
     deadline = t0 + budget if budget else None
+    if tier == "quick" and deadline:
+        DEADLINE[0] = deadline
     not_run = []
+    cex = {}
+    native_lock = threading.Lock()
 
     def work(h):
         if deadline and time.time() > deadline:
             return h, None
-        return h, run_harness(h, logdir)
+        r = run_harness(h, logdir)
+        if r is not None and r["outcome"] == "fail" and h["kind"] != "twin":
+            # extract and replay the counterexample right away (pipelined with the other queries)
+            h["_failed_after"] = r["wall_s"]
+            with native_lock:
+                for cfg in replay_cfgs(h):
+                    native_bin(cfg, "dev")
+                    native_bin(cfg, "release")
+            cex[h["name"]] = find_reproducing(h, logdir)
+            if cex[h["name"]][2] and h["kind"] == "claim":
+                log("(reproduced natively: %s)" % h["name"])
+        return h, r
 
     with cf.ThreadPoolExecutor(max_workers=a.jobs) as ex:
         futs = [ex.submit(work, h) for h in hs]
@@ -766,16 +790,7 @@ def main():
                 % (h["kind"], h["name"], r["outcome"], r["wall_s"], r["variables"], r["clauses"], r.get("why", ""))
             )
 
-    # counterexamples of failing claim/known harnesses: extract and replay natively, in parallel
-    failing = [h for h in hs if h["kind"] != "twin" and results.get(h["name"], {}).get("outcome") == "fail"]
-    cex = {}
-    if failing:
-        for cfg in sorted(set(c for h in failing for c in replay_cfgs(h))):
-            native_bin(cfg, "dev")
-            native_bin(cfg, "release")
-        with cf.ThreadPoolExecutor(max_workers=a.jobs) as ex:
-            for h, res in zip(failing, ex.map(lambda h: find_reproducing(h, logdir), failing)):
-                cex[h["name"]] = res
+    DEADLINE[0] = None
 
     violations = []
     known_lines = []
